@@ -63,3 +63,47 @@ Print Assumptions p2048_prime_from_q.
 Theorem safe_P2048_from_q : prime q2048 -> SafePrime P2048.
 Proof. intro Hq. apply safe_P2048; [apply p2048_prime_from_q|]; exact Hq. Qed.
 Print Assumptions safe_P2048_from_q.
+
+(* ---------------------------------------------------------------- curve25519 / ristretto255 / Ed25519 constants *)
+(* Pocklington certificate chain (generated once by a sympy script — untrusted, the kernel checks every line with
+   chain_checkb) for the order l = 2^252 + 27742317777372353535851937790883648493 of the ristretto255 / Ed25519
+   prime-order group and for the field characteristic 2^255 - 19. *)
+From Strand Require Import Model.Ristretto.
+
+Definition chain25519 : list (Z * list (Z * Z)) := [
+  (531581, [(3797, 2)]);
+  (1257559732178653, [(531581, 2); (23, 2); (7, 2)]);
+  (4434155615661930479, [(1257559732178653, 2)]);
+  (172054593956031949258510691, [(4434155615661930479, 2)]);
+  (19757330305831588566944191468367130476339, [(172054593956031949258510691, 2)]);
+  (276602624281642239937218680557139826668747, [(19757330305831588566944191468367130476339, 2)]);
+  (7237005577332262213973186563042994240857116359379907606001950938285454250989, [(276602624281642239937218680557139826668747, 2)]);
+  (8574133, [(103, 2); (7, 2); (3, 2); (2, 2)]);
+  (1919519569386763, [(8574133, 2); (127, 2)]);
+  (75707, [(37853, 2)]);
+  (75445702479781427272750846543864801, [(1919519569386763, 2); (75707, 2)]);
+  (132049, [(131, 2); (7, 2)]);
+  (74058212732561358302231226437062788676166966415465897661863160754340907, [(75445702479781427272750846543864801, 2); (132049, 2)]);
+  (57896044618658097711785492504343953926634992332820282019728792003956564819949, [(74058212732561358302231226437062788676166966415465897661863160754340907, 2)])
+].
+
+Lemma chain25519_primes : Forall prime (map fst chain25519).
+Proof.
+  apply (chain_checkb_sound fast_powm fast_powm_is_pow chain25519 []); [constructor|].
+  vm_compute. reflexivity.
+Qed.
+
+Theorem ell_prime : prime ell.
+Proof.
+  pose proof chain25519_primes as H. rewrite Forall_forall in H. apply H. vm_compute. tauto.
+Qed.
+Print Assumptions ell_prime.
+
+Theorem fp_prime : prime fp.
+Proof.
+  pose proof chain25519_primes as H. rewrite Forall_forall in H. apply H. vm_compute. tauto.
+Qed.
+Print Assumptions fp_prime.
+
+Theorem ell_fp_values : ell = 2 ^ 252 + 27742317777372353535851937790883648493 /\ fp = 2 ^ 255 - 19.
+Proof. vm_compute. split; reflexivity. Qed.
